@@ -27,12 +27,12 @@ import (
 func TestMain(m *testing.M) { rt.Main(m) }
 
 type fold struct {
-	MinRTT   int64 `json:"min_rtt"`
-	Sum      int64 `json:"sum_rtt"`
-	Count    int   `json:"successes"`
-	MaxIF    int   `json:"max_inflight"`
-	Drop     bool  `json:"drop"`
-	Samples  int   `json:"qualifying_completions"`
+	MinRTT  int64 `json:"min_rtt"`
+	Sum     int64 `json:"sum_rtt"`
+	Count   int   `json:"successes"`
+	MaxIF   int   `json:"max_inflight"`
+	Drop    bool  `json:"drop"`
+	Samples int   `json:"qualifying_completions"`
 }
 
 func newFold() fold { return fold{MinRTT: math.MaxInt64} }
@@ -89,6 +89,16 @@ func defaultLimiterCase(t *testing.T, idx int64, r *rand.Rand) {
 	minW := int64(math.Exp2(10 + r.Float64()*20)) // ~1us .. 1s
 	maxW := minW * int64(1+r.IntN(8))
 	thr := []int64{0, 0, 10, 1000, 100000, 1000000}[r.IntN(6)]
+	// steady style: many holders released at a constant pace, so that every RTT is about holders x gap and the window
+	// period is decided by 2 x minRTT (strictly between the configured minimum and maximum window)
+	steady := r.IntN(3) == 0
+	steadyHolders, steadyGap := 12+r.IntN(30), time.Duration(1000+r.IntN(1000000))
+	if steady {
+		rttApprox := int64(steadyHolders) * int64(steadyGap)
+		minW = rttApprox/2 + 1
+		maxW = minW * 8
+		thr = 0
+	}
 	cfg := rt.J{"limiter": "default", "window_size": windowSize, "min_window_ns": minW, "max_window_ns": maxW, "min_rtt_threshold_ns": thr}
 	rec := inject.NewScriptedLimit(100, func(n int) int { return 60 + (n*7)%40 })
 	st := strategy.NewSimpleStrategy(100)
@@ -97,6 +107,9 @@ func defaultLimiterCase(t *testing.T, idx int64, r *rand.Rand) {
 		panic(err)
 	}
 	nops := 150 + r.IntN(500)
+	if steady {
+		nops += 600
+	}
 	pIgnore, pDrop := []float64{0, 0.1, 0.3}[r.IntN(3)], []float64{0, 0.03, 0.2, 1}[r.IntN(4)]
 	var log []string
 	deliveries, midDrops := 0, 0
@@ -105,6 +118,9 @@ func defaultLimiterCase(t *testing.T, idx int64, r *rand.Rand) {
 		var nextUpdate int64 // model of the earliest instant after which the next delivery may happen
 		var hs []held
 		maxHold := 1 + r.IntN(6)
+		if steady {
+			maxHold = steadyHolders
+		}
 		fail := func(sig string, extra rt.J) {
 			extra["config"] = cfg
 			lo := len(log) - 30
@@ -115,7 +131,7 @@ func defaultLimiterCase(t *testing.T, idx int64, r *rand.Rand) {
 			rt.Violation("C09/default/"+sig, idx, extra)
 		}
 		for i := 0; i < nops; i++ {
-			if len(hs) < maxHold && (len(hs) == 0 || r.IntN(2) == 0) {
+			if len(hs) < maxHold && (len(hs) == 0 || steady || r.IntN(2) == 0) {
 				l, ok := dl.Acquire(context.Background())
 				if !ok {
 					fail("harness-acquire-refused", rt.J{})
@@ -124,8 +140,15 @@ func defaultLimiterCase(t *testing.T, idx int64, r *rand.Rand) {
 				hs = append(hs, held{l, time.Now(), len(hs) + 1})
 				continue
 			}
-			time.Sleep(dur(r))
+			if steady {
+				time.Sleep(steadyGap)
+			} else {
+				time.Sleep(dur(r))
+			}
 			k := r.IntN(len(hs))
+			if steady {
+				k = 0 // oldest first: RTTs stay close to holders x gap
+			}
 			h := hs[k]
 			hs = append(hs[:k], hs[k+1:]...)
 			now := time.Now()
@@ -201,6 +224,9 @@ func defaultLimiterCase(t *testing.T, idx int64, r *rand.Rand) {
 		}
 	})
 	rt.Count("default_cases", 1)
+	if steady {
+		rt.Count("default_cases_with_period_decided_by_twice_the_min_rtt", 1)
+	}
 	rt.Count("default_windows_with_drop_before_last_completion", int64(midDrops))
 	if deliveries >= 2 {
 		rt.Distinct(fmt.Sprintf("default|%v|%d|%d", cfg, nops, deliveries))
